@@ -131,7 +131,7 @@ func nonNilValue(v ssa.Value) bool {
 // guardedNonNil: blk is dominated by the non-nil edge of a test `v != nil` (canonically equal operand).
 func guardedNonNil(cz *canonizer, v ssa.Value, blk *ssa.BasicBlock) bool {
 	want := cz.of(v)
-	for _, g := range dominatingGuards(blk) {
+	for _, g := range expandAndGuards(dominatingGuards(blk)) {
 		ng := normGuard(g)
 		bo, ok := ng.Cond.(*ssa.BinOp)
 		if !ok || (bo.Op != token.EQL && bo.Op != token.NEQ) {
@@ -780,6 +780,14 @@ func (p *Prog) flagImpliesAt(fn *ssa.Function, cz *canonizer, f, v ssa.Value, at
 			return okv
 		}
 		return false
+	}
+	// nm, found = x.(map[string]interface{}): the flag is the assertion's own ok
+	if fe, isE := f.(*ssa.Extract); isE && fe.Index == 1 {
+		if ve, isV := v.(*ssa.Extract); isV && ve.Index == 0 && ve.Tuple == fe.Tuple {
+			if ta, isTA := fe.Tuple.(*ssa.TypeAssert); isTA && ta.CommaOk {
+				return true // under ok the asserted value is what the interface held (A-typednil: no typed-nil containers)
+			}
+		}
 	}
 	pf, ok1 := f.(*ssa.Phi)
 	pv, ok2 := v.(*ssa.Phi)
